@@ -339,6 +339,62 @@ def _real(item):
     return ("ok", None, cls)
 
 
+def _anon(item):
+    """A module the designer forgot to name, `depth` levels below the top: the call fails in the very last pass.  Then:
+    the same call again; the nameless module on its own; a new parent of it - each must report what a fresh process
+    reports for it (the missing name), never return normally or die of something else."""
+    import hdl21 as h
+
+    depth, entry, cont = item
+
+    def mk():
+        leaf = h.Module()
+        leaf.p = h.Port()
+        leaf.r = h.R(r=1)(p=leaf.p, n=leaf.p)
+        top = leaf
+        for d in range(depth):
+            w = h.Module(name=f"AnonWrap{d}")
+            w.p = h.Port()
+            w.inner = top(p=w.p)
+            top = w
+        return leaf, top
+
+    def call(m):
+        return h.elaborate(m) if entry == "elaborate" else h.to_proto(m)
+
+    def parent(leaf):
+        np_ = h.Module(name="AnonNewParent")
+        np_.s = h.Signal()
+        np_.i = leaf(p=np_.s)
+        return np_
+
+    try:
+        leaf, top = mk()
+        # what a fresh process says about the continuation's design
+        fl, ft = mk()
+        try:
+            call({"retry": ft, "alone": fl, "new_parent": parent(fl)}[cont])
+            return ("skip", "a fresh build accepts the design")
+        except Exception as e:
+            ref = short_exc(e)
+        try:
+            call(top)
+            return ("skip", "the design was accepted")
+        except Exception as e:
+            msg1 = short_exc(e)
+        target = {"retry": top, "alone": leaf, "new_parent": None}[cont] or parent(leaf)
+        try:
+            call(target)
+        except Exception as e:
+            msg2 = short_exc(e)
+            if msg2.split(":")[0] != ref.split(":")[0] or (core(ref) not in msg2 and core(msg2) not in ref):
+                return ("bad", f"nameless module at depth {depth}, {entry}, then {cont}: reports {msg2[:90]!r}; a fresh process reports {ref[:90]!r}")
+            return ("ok", None)
+        return ("bad", f"nameless module at depth {depth}, {entry}, then {cont}: the call returned normally; a fresh process reports {ref[:90]!r} (first call: {msg1[:60]!r})")
+    except Exception as e:
+        return ("bad", "harness: " + short_exc(e))
+
+
 def core(msg):
     """The informative tail of an error message (the elaboration path prefix differs between attempts)."""
     return msg.strip().splitlines()[-1][-60:]
@@ -651,6 +707,13 @@ def run(ctx):
         ctx.outcome("genspecial:" + status + ":" + str(detail)[:20])
         if status == "bad":
             ctx.violation(dict(fault="generator_" + kind, continuation="retry", what=detail[:50]), dict(kind="gen_special", item=kind), detail)
+    for it in [(d, e, c) for d in (0, 1, 2) for e in ("elaborate", "to_proto") for c in ("retry", "alone", "new_parent")]:
+        status, detail = _anon(it)
+        ctx.count(states=1, transitions=3, traces_validated_against_impl=1)
+        ctx.fam("nameless_module", **{status: 1})
+        ctx.outcome("anon:" + status)
+        if status == "bad":
+            ctx.violation(dict(fault="nameless_module", continuation=it[2], what=("returned normally" if "returned normally" in detail else "another error")), dict(kind="anon", item=list(it)), detail)
     ctx.sample(dict(kind="injected", item=list(items[len(items) // 2])))
     ctx.sample(dict(kind="real", item=list(ritems[len(ritems) // 2]) if ritems else None))
     ctx.sample(dict(kind="generator", item=["nested", "retry_fixed"]))
@@ -661,6 +724,10 @@ def replay(body):
     c = body["case"]
     if c["kind"] == "subclass":
         r = _subclass_fault(tuple(c["item"]))
+        print("replay:", r)
+        return 1 if r[0] == "bad" else 0
+    if c["kind"] == "anon":
+        r = _anon(tuple(c["item"]))
         print("replay:", r)
         return 1 if r[0] == "bad" else 0
     if c["kind"] == "gen_special":
